@@ -382,8 +382,15 @@ class MetaFirewall(type):
     def __new__(cls, name, bases, classdict):
         firewalled = {}
         for base in bases:
-            if hasattr(base, '__firewalled__'):
-                cls.updateFirewalled(firewalled, base.__firewalled__)
+            # Every ancestor's __firewalled__, most generic first: looking
+            # only at base.__firewalled__ sees the nearest definition and
+            # silently drops the others (callbacks.Plugin resolves to
+            # Commands.__firewalled__, which hid IrcCallback's __call__,
+            # inFilter, outFilter, die, ... for every plugin).
+            for ancestor in reversed(getattr(base, '__mro__', (base,))):
+                if '__firewalled__' in getattr(ancestor, '__dict__', {}):
+                    cls.updateFirewalled(firewalled,
+                                         ancestor.__dict__['__firewalled__'])
         cls.updateFirewalled(firewalled, classdict.get('__firewalled__', []))
         for (attr, errorHandler) in firewalled.items():
             if attr in classdict:
